@@ -251,6 +251,89 @@ func init() {
 
 var builderModels func()
 
+// sync.Cond: Wait releases the Locker, parks the goroutine until a Signal (which wakes the longest-waiting
+// goroutine, as the runtime's notify list does) or a Broadcast (all of them), then takes the Locker again.
+// No spurious wake-ups. The Locker must be a *sync.Mutex or a *sync.RWMutex (its write side).
+type condTicket struct{ woken bool }
+
+func (m *Machine) condLocker(p value) (lock, unlock func()) {
+	ptr, ok := p.(*value)
+	if !ok || ptr == nil {
+		m.targetPanic("runtime error: invalid memory address or nil pointer dereference (sync.Cond)")
+	}
+	st, ok := (*ptr).(structV)
+	if !ok {
+		m.abort("sync.Cond of unexpected shape %T", *ptr)
+	}
+	for _, f := range st {
+		if iv, isI := f.(ifaceV); isI && iv.t != nil {
+			if mp, isP := iv.v.(*value); isP {
+				return func() { m.mutexLock(mp) }, func() { m.mutexUnlock(mp) }
+			}
+		}
+	}
+	m.abort("sync.Cond: Locker is not a *sync.Mutex / *sync.RWMutex")
+	return nil, nil
+}
+
+func init() {
+	condModels = func() {
+		models["sync.NewCond"] = func(m *Machine, c *frame, fn *ssa.Function, a []value) value {
+			pt := fn.Signature.Results().At(0).Type().(*types.Pointer)
+			st := zero(pt.Elem()).(structV)
+			sty := pt.Elem().Underlying().(*types.Struct)
+			for i := 0; i < sty.NumFields(); i++ {
+				if sty.Field(i).Name() == "L" {
+					st[i] = a[0]
+				}
+			}
+			cell := new(value)
+			*cell = st
+			return cell
+		}
+		models["(*sync.Cond).Wait"] = func(m *Machine, c *frame, fn *ssa.Function, a []value) value {
+			lock, unlock := m.condLocker(a[0])
+			ptr := a[0].(*value)
+			if m.condQ == nil {
+				m.condQ = map[*value][]*condTicket{}
+			}
+			t := &condTicket{}
+			m.condQ[ptr] = append(m.condQ[ptr], t)
+			unlock()
+			m.block(func() bool { return t.woken }, "Cond.Wait")
+			m.hbAcquire(ptr, "cond")
+			lock()
+			return nil
+		}
+		wake := func(all bool) externalFn {
+			return func(m *Machine, c *frame, fn *ssa.Function, a []value) value {
+				ptr, ok := a[0].(*value)
+				if !ok || ptr == nil {
+					m.targetPanic("runtime error: invalid memory address or nil pointer dereference (sync.Cond)")
+				}
+				m.hbRelease(ptr, "cond")
+				q := m.condQ[ptr]
+				for len(q) > 0 {
+					q[0].woken = true
+					q = q[1:]
+					if !all {
+						break
+					}
+				}
+				if m.condQ != nil {
+					m.condQ[ptr] = q
+				}
+				m.preemptPoint()
+				return nil
+			}
+		}
+		models["(*sync.Cond).Signal"] = wake(false)
+		models["(*sync.Cond).Broadcast"] = wake(true)
+	}
+}
+
+var condModels func()
+
 func opaqueStub(name string) externalFn {
 	return func(m *Machine, caller *frame, fn *ssa.Function, args []value) value {
 		m.opaqueCalls[name]++
@@ -889,6 +972,7 @@ func init() {
 	}
 	initSymIntrinsics()
 	builderModels()
+	condModels()
 	// regexp on concrete arguments: native (used by signature.ValidName/CleanName)
 	models["regexp.MustCompile"] = func(m *Machine, c *frame, fn *ssa.Function, a []value) value {
 		p, ok := a[0].(strV).Concrete()
